@@ -457,10 +457,7 @@ func RunC10(t *testing.T, c *C10Case) *RunResult {
 		var first *c10Outcome
 		var firstBody []byte
 		newIngestor := func(client *captureClient) (*bulk.Ingestor, http.Handler) {
-			ing := bulk.NewIngestor(bulk.IngestorConfig{
-				MaxInflightBulks: 4, AllowedTimeDrift: time.Duration(c.DriftMs) * time.Millisecond, FutureAllowedTimeDrift: time.Duration(c.FutureMs) * time.Millisecond,
-				MappingProvider: mp, MaxTokenSize: 72, DocsZSTDCompressLevel: 1, MetasZSTDCompressLevel: 1, MaxDocumentSize: c.MaxDocSize,
-			}, client)
+			ing := bulk.NewIngestor(c10BulkConfig(c, mp), client)
 			return ing, proxyapi.NewBulkHandler(ing, c.MaxDocSize)
 		}
 		if c.Prelude != "" {
@@ -640,12 +637,18 @@ func RunC10(t *testing.T, c *C10Case) *RunResult {
 // runC10Par: the concurrent phase. One handler and ingestor serve Par requests at once; every
 // request must get exactly the outcome the reference gives for its own body, and every call to the
 // storage must carry the documents of exactly one request.
-func runC10Par(s *verifsim.Sim, c *C10Case, mp bulk.MappingProvider, violate func(string, string, ...any), log *[]string, res *RunResult) {
-	client := &captureClient{}
-	ing := bulk.NewIngestor(bulk.IngestorConfig{
+// c10BulkConfig: the bulk configuration of the case as a proxy would run with it, i.e. after the defaulting
+// proxyapi.NewIngestor applies to what the flags gave it (zero drifts are legitimate values and must survive it)
+func c10BulkConfig(c *C10Case, mp bulk.MappingProvider) bulk.IngestorConfig {
+	return proxyapi.VerifIngestorDefaults(proxyapi.IngestorConfig{Bulk: bulk.IngestorConfig{
 		MaxInflightBulks: 4, AllowedTimeDrift: time.Duration(c.DriftMs) * time.Millisecond, FutureAllowedTimeDrift: time.Duration(c.FutureMs) * time.Millisecond,
 		MappingProvider: mp, MaxTokenSize: 72, DocsZSTDCompressLevel: 1, MetasZSTDCompressLevel: 1, MaxDocumentSize: c.MaxDocSize,
-	}, client)
+	}}).Bulk
+}
+
+func runC10Par(s *verifsim.Sim, c *C10Case, mp bulk.MappingProvider, violate func(string, string, ...any), log *[]string, res *RunResult) {
+	client := &captureClient{}
+	ing := bulk.NewIngestor(c10BulkConfig(c, mp), client)
 	defer ing.Stop()
 	h := proxyapi.NewBulkHandler(ing, c.MaxDocSize)
 	now := time.Now() // the fake clock does not move while requests only compute
@@ -782,8 +785,8 @@ func GenC10(seed uint64, thorough bool, maxDoc int) *C10Case {
 	r := verifsim.NewSplitMix(seed).Split("c10")
 	c := &C10Case{Property: "C10", Seed: seed}
 	c.MaxDocSize = maxDoc
-	c.DriftMs = []int64{1000, 60000, 86400000}[r.Intn(3)]
-	c.FutureMs = []int64{500, 60000, 86400000}[r.Intn(3)]
+	c.DriftMs = []int64{1000, 60000, 86400000, 0}[r.Intn(4)]
+	c.FutureMs = []int64{500, 60000, 86400000, 0}[r.Intn(4)]
 	c.ClockMs = int64(r.Intn(100000)) + 200000000 // well after the epoch of the fake clock so that past offsets stay positive
 	calendar := r.Bool(0.04)
 	if calendar {
